@@ -187,6 +187,25 @@ class Gen:
         return tuple(out)
 
 
+def permute_names(spec, rng):
+    """Store the indeterminates of a polynomial spec in another (rotated / shuffled) order:
+    the same polynomial, names and exponent columns permuted together."""
+    names = list(spec["names"])
+    if spec.get("k") != "poly" or len(names) < 2:
+        return spec
+    order = list(range(len(names)))
+    if len(names) >= 3 and rng.random() < 0.6:
+        shift = rng.randrange(1, len(names))
+        order = order[shift:] + order[:shift]
+    else:
+        while order == sorted(order):
+            rng.shuffle(order)
+    spec["names"] = [names[i] for i in order]
+    spec["exps"] = [[row[i] for i in order] for row in spec["exps"]]
+    spec["name_order"] = "permuted"
+    return spec
+
+
 # ---------------------------------------------------------------------------
 # builders
 # ---------------------------------------------------------------------------
